@@ -83,7 +83,8 @@ func vFrame(msg []byte) []byte {
 // stale answer is visible) and with the query's ID.
 type vKeyedUpstream struct {
 	calls int
-	big   int // number of extra answers (to force truncation)
+	big   int    // number of extra answers (to force truncation)
+	seen  []byte // marker octet of every question that was forwarded
 }
 
 func vAnswerFor(marker byte) [4]byte { return [4]byte{10, marker, marker ^ 0x5a, 7} }
@@ -101,6 +102,7 @@ func (u *vKeyedUpstream) ExchangeContext(ctx context.Context, q []byte) (*dnsmsg
 	}
 	m.Response = true
 	marker := m.Questions[0].Name[1]
+	u.seen = append(u.seen, marker)
 	for i := 0; i <= u.big; i++ {
 		a := dnsmsg.NewA()
 		a.Name = dnsmsg.Name(pool.CopyBuf(m.Questions[0].Name))
